@@ -246,7 +246,22 @@ class C18(core.PropBase):
                    "steps": [{"name": "s", "script": {"actions": {"onRun": {"command": "c"}}}}]}
             va, vb = {"P": str(narrow[0])}, {"P": str(rng.choice(pool))}
             progs = [[("preprocess",), ("create",)], [("create",), ("preprocess",)], [("create",), ("create",)], [("preprocess",), ("preprocess",), ("create",)]]
-            yield {"kind": "history", "doc": doc, "envs": envs, "va": va, "vb": vb, "pa": [list(o) for o in rng.choice(progs)], "pb": [list(o) for o in rng.choice(progs)]}
+            case = {"kind": "history", "doc": doc, "envs": envs, "va": va, "vb": vb, "pa": [list(o) for o in rng.choice(progs)], "pb": [list(o) for o in rng.choice(progs)]}
+            if i % 2 == 1:
+                # B brings environment templates of its own: the same environment NAMES (another revision of them), other
+                # definitions, sometimes one template fewer.  What was merged for A's list is not B's.
+                envs_b = copy.deepcopy(envs)
+                for e in envs_b:
+                    d = e["parameterDefinitions"][0]
+                    d["allowedValues"] = rng.sample(pool, rng.choice([1, 2, 3]))
+                    if rng.random() < 0.5:
+                        d["default"] = d["allowedValues"][0]
+                if len(envs_b) > 1 and rng.random() < 0.3:
+                    envs_b.pop()
+                case["envs_b"] = envs_b
+                if rng.random() < 0.5:
+                    case["vb"] = {}
+            yield case
         # 2d. pre-emption made deterministic: client A's call is traced and, at evenly spread points inside the package's
         #     own code (function entries and lines), client B's whole call runs before A continues — every place where a
         #     thread switch could fall, without waiting for the scheduler to pick it.  Whatever B leaves in shared,
@@ -307,7 +322,8 @@ class C18(core.PropBase):
             early = []
             env_docs = case.get("envs") or []
             for who, vals, prog in (("A", case["va"], pa), ("B", case["vb"], pb)):
-                c = Client(decode_job_template(template=copy.deepcopy(doc)), doc, vals, [decode_environment_template(template=copy.deepcopy(e)) for e in env_docs])
+                c = Client(decode_job_template(template=copy.deepcopy(doc)), doc, vals,
+                           [decode_environment_template(template=copy.deepcopy(e)) for e in (case["envs_b"] if who == "B" and "envs_b" in case else env_docs)])
                 iso[who] = [c.run(o) for o in prog]
                 for pr in c.problems:
                     early.append([who, pr])
@@ -325,7 +341,8 @@ class C18(core.PropBase):
                 ets = [decode_environment_template(template=copy.deepcopy(e)) for e in env_docs]
                 before = repr(model_to_object(model=jt))
                 before_envs = [repr(model_to_object(model=e)) for e in ets]
-                cl = {"A": Client(jt, doc, case["va"], ets), "B": Client(jt, doc, case["vb"], ets)}
+                ets_b = [decode_environment_template(template=copy.deepcopy(e)) for e in case["envs_b"]] if "envs_b" in case else ets
+                cl = {"A": Client(jt, doc, case["va"], ets), "B": Client(jt, doc, case["vb"], ets_b)}
                 got = {"A": [], "B": []}
                 for who, o in sched:
                     got[who].append(cl[who].run(o))
